@@ -228,7 +228,7 @@ WithRepo(g, t) == HeadText(g) \o SlotPartText(g) \o <<58, 58>> \o t \o UsePartTe
 WithUse(g, t) == HeadText(g) \o SlotPartText(g) \o RepoPartText(g) \o <<91>> \o t \o <<93>>
 WithCpv(g, t) == BlockText(g.blocks) \o OpText(g.op) \o t \o (IF g.op = "=*" THEN <<42>> ELSE <<>>) \o SlotPartText(g) \o RepoPartText(g) \o UsePartText(g)
 VerOf(g) == IF g.op = "" THEN <<>> ELSE <<45>> \o g.ver \o (IF g.rev # <<>> THEN <<45, 114>> \o g.rev ELSE <<>>)
-Mutations == {"slot_dash", "slot_dot", "slot_badchar", "slot_empty", "subslot_empty", "slot_empty_sub", "slotop_target", "slotop_double",
+Mutations == {"slot_dash", "slot_dot", "slot_badchar", "slot_empty", "subslot_empty", "subslot_dash", "subslot_dot", "subslot_badchar", "subslot_dash_op", "slot_empty_sub", "slotop_target", "slotop_double",
               "slot_comma", "repo_empty", "repo_dash", "repo_badchar", "repo_twice",
               "use_empty", "use_empty_item", "use_first_char", "use_badchar", "use_neg_cond", "use_bang_plain", "use_two_conds",
               "use_bad_default", "use_default_first", "use_unclosed", "use_trailing", "use_before_slot", "use_nested", "use_double_neg",
@@ -242,6 +242,10 @@ Mut(g, m) ==
     [] m = "slot_badchar"   -> WithSlot(g, <<49, 64, 50>>)
     [] m = "slot_empty"     -> HeadText(g) \o <<58>> \o UsePartText(g)
     [] m = "subslot_empty"  -> WithSlot(g, <<49, 47>>)
+    [] m = "subslot_dash"   -> WithSlot(g, <<49, 47, 45, 49>>)
+    [] m = "subslot_dot"    -> WithSlot(g, <<48, 47, 46, 49>>)
+    [] m = "subslot_badchar" -> WithSlot(g, <<49, 47, 49, 64, 50>>)
+    [] m = "subslot_dash_op" -> WithSlot(g, <<48, 47, 45, 97, 61>>)
     [] m = "slot_empty_sub" -> WithSlot(g, <<47, 49>>)
     [] m = "slotop_target"  -> WithSlot(g, <<42, 49>>)
     [] m = "slotop_double"  -> WithSlot(g, <<49, 61, 61>>)
